@@ -22,6 +22,23 @@ def comp_family(seed, n, maxlen=3, budget=2500):
                 elif it["kind"] == "arg" and rnd.random() < 0.4:
                     # values completed by the shell (`complete_shell`): the item is still offered by name
                     it["complete_shell"] = rnd.choice(["file", "dir", "nothing"])
+    # a value is being typed while another argument, whose completer would recognise ITS value, is already on the line:
+    # only the completer of the item being typed may speak (the words are prefixes of every completer's values)
+    for i in range(6):
+        a = D.ar("a0", "opt" if i % 2 else "many", "str", "--aa", "-a")
+        b = D.ar("b0", "opt", "str", "--bb")
+        c = D.ar("c0", "opt", "str", "--cc")
+        b["completer"] = ["cvb0a", "cvb0b"]
+        if i % 3 == 1:
+            a["completer"] = ["cva0a"]
+        if i % 3 == 2:
+            c["completer"] = ["cvc0a", "cvc0b"]
+        named = [a, b] if i < 2 else [a, c, b] if i < 4 else [b, a]
+        d = D.mkdef(f"compval{seed}_{i}", D.level(named, D.NOTAIL if i % 2 else D.postail(D.pos("p0", "opt"))), maxlen=maxlen,
+                    extras=(), spells=("sep",), words=("cv",))
+        d["alpha"]["clusters"] = False
+        D.trim_to_budget(d, budget)
+        fam.append(d)
     return fam + D.prefix_cmd_family(seed + 2, 6)
 
 
